@@ -142,7 +142,6 @@ func (n *Node) Execute(ctx context.Context) error {
 			close(captured)
 		}()
 	}
-	n.setExecuting(true)
 	n.SetError(cmd.Run())
 	n.setExecuting(false)
 	if n.outputReader != nil && n.data.Step.Output != "" {
@@ -182,6 +181,13 @@ func (n *Node) setupExec(ctx context.Context) (executor.Executor, error) {
 	n.mu.Lock()
 	defer n.mu.Unlock()
 
+	// A stop request that arrived after the step was launched has marked the
+	// node as canceled (under this lock): its command must not be started
+	// any more, nobody would signal it.
+	if n.data.State.Status == NodeStatusCancel {
+		return nil, fmt.Errorf("step %s: canceled before its command was started", n.data.Step.Name)
+	}
+
 	ctx, fn := context.WithCancel(ctx)
 
 	n.cancelFunc = fn
@@ -208,6 +214,11 @@ func (n *Node) setupExec(ctx context.Context) (executor.Executor, error) {
 		return nil, err
 	}
 	n.cmd = cmd
+	// From here on the command may start at any moment: a stop signal that
+	// arrives before the process exists finds nothing to signal, so the node
+	// must keep counting as running (and keep receiving the repeated signal
+	// and the final SIGKILL) until Run has returned.
+	n.executing = true
 
 	var stdout io.Writer
 
